@@ -6,6 +6,7 @@ use h_common::{tool_error, Args};
 
 mod commit;
 mod conc;
+mod validate;
 
 fn main() {
     let args = Args::from_env();
@@ -14,6 +15,7 @@ fn main() {
     h_common::quiet_panics();
     match (mode.as_str(), model.as_str()) {
         ("replay", "commit") => commit::replay(&args),
+        ("replay", "validate") => validate::replay(&args),
         _ => tool_error(&format!("unknown mode/model {mode}/{model}")),
     }
 }
